@@ -108,6 +108,13 @@ CHECKS["C14"] = dict(
     note="Choice points keyed by (site, elements); sets built by displays/comprehensions would escape the hook (the PYTHONHASHSEED subprocess supplement would notice); order of duplicate groups is not compared; floats compared to 1e-12.",
 )
 
+CHECKS["C04"] = dict(
+    cat="model_checking", ref="DESIGN.md §3 C04",
+    technique="explicit-state BFS over Platform.find_include_file call histories (state = the include memo and once-list, invariant = stateless reference resolver) plus bounded-exhaustive enumeration of multi-directory trees (15 header placements x 4 guard styles x include sequences x 13 ordered -I/-isystem lists x -include) analysed through config.load_database + finder.find against a reference preprocessor, cross-checked with gcc -E on the materialised trees",
+    text="Every enumerated tree / command line is analysed by the real code and the per-line attribution of every header copy and of the translation unit must equal the reference preprocessor's (includer's directory first for quote includes, all -I before all -isystem, first match wins, guard / #pragma once bodies once per TU, forced include first, macros visible afterwards); every resolver call history must answer like the stateless resolver.",
+    note="Reference ref/cpp.py validated against gcc -E -P (emitted code lines); missing headers excluded (C18); same directory as -I and -isystem, -iquote, #include_next outside the alphabet.",
+)
+
 PENDING = {}
 
 
